@@ -233,7 +233,7 @@ func (u *Unit) inline(fr *Frame, st *State, fn *ssa.Function, key string, binds,
 	}
 	m := bindArgs(paramNames(fn), args)
 	u.event(fr, st, "call "+bareName(key), m, where)
-	nf := &Frame{fn: fn, key: key, vals: map[ssa.Value]Val{}, unit: u, hooks: fr.hooks}
+	nf := &Frame{fn: fn, key: key, vals: map[ssa.Value]Val{}, unit: u, hooks: fr.hooks, parent: fr}
 	for i, p := range fn.Params {
 		if i < len(args) {
 			nf.vals[p] = args[i]
@@ -471,6 +471,14 @@ func (u *Unit) execGo(fr *Frame, st *State, x *ssa.Go, where string) {
 	}
 	// tracking by the wait group
 	exempt := u.fc != nil && (u.fc.Flags["spawn_exempt"] || u.fc.Flags["spawn_exempt:"+name])
+	if !exempt && u.fc != nil && target != nil {
+		// spawn_exempt:@X — a goroutine whose body calls X (named by what it does, not by its closure ordinal)
+		for fl := range u.fc.Flags {
+			if strings.HasPrefix(fl, "spawn_exempt:@") && u.fnCallsNamed(target, fl[len("spawn_exempt:@"):]) {
+				exempt = true
+			}
+		}
+	}
 	if !exempt && u.spawnDepth == 0 {
 		wg, ok := st.ghost["wgadd"]
 		if !ok {
@@ -486,7 +494,7 @@ func (u *Unit) execGo(fr *Frame, st *State, x *ssa.Go, where string) {
 	if wg, ok := st.ghost["wgadd"]; ok && !wg.IsFalse() {
 		st.ghost["wgadd"] = u.define(Ite(Cmp(">=", wg, IntLit(1)), Arith("-", wg, IntLit(1)), wg), "wg")
 	}
-	u.event(fr, st, "spawn "+name, m, where)
+	u.event(fr, st, "spawn "+name, m, where, "spawn")
 	if target == nil {
 		// function value: count it as a spawned call
 		u.bump(st, "scalls:"+name, 1)
@@ -578,7 +586,7 @@ func (u *Unit) builtin(fr *Frame, st *State, name string, args []Val, cc *ssa.Ca
 		}
 		t := u.termOf(args[0])
 		l := App(SInt, "LenOf", t)
-		u.assume(TTrue, Cmp(">=", l, TZero))
+		u.assume(TTrue, And(Cmp(">=", l, TZero), Cmp("<=", l, BigLit("4611686018427387904"))))
 		return &Scalar{T: l, Typ: types.Typ[types.Int]}
 	case "append":
 		return &SliceV{T: u.fresh(SInt, "appended"), Typ: cc.Signature().Results().At(0).Type()}
@@ -597,6 +605,18 @@ func (u *Unit) builtin(fr *Frame, st *State, name string, args []Val, cc *ssa.Ca
 		return nil
 	case "recover":
 		return u.freshVal(types.NewInterfaceType(nil, nil), "recovered", st.pc)
+	case "max", "min":
+		op := map[string]string{"max": ">=", "min": "<="}[name]
+		acc := u.termOf(args[0])
+		for _, a := range args[1:] {
+			t := u.termOf(a)
+			if acc.Sort != t.Sort || (acc.Sort != SInt && acc.Sort != SReal) {
+				u.note("builtin %s on unsupported operands", name)
+				return u.freshResults(cc.Signature(), name, st.pc)
+			}
+			acc = u.define(Ite(Cmp(op, acc, t), acc, t), name)
+		}
+		return &Scalar{T: acc, Typ: cc.Signature().Results().At(0).Type()}
 	}
 	u.note("builtin %s not modelled", name)
 	return u.freshResults(cc.Signature(), name, st.pc)
@@ -679,4 +699,32 @@ func (e *Engine) normEvent(ev string) string {
 		return kind + " " + bareName(target)
 	}
 	return ev
+}
+
+
+// fnCallsNamed: fn contains a direct call of the function or interface method called name ("KeyValue.Update",
+// "attemptAcquire").
+func (u *Unit) fnCallsNamed(fn *ssa.Function, name string) bool {
+	for _, b := range fn.Blocks {
+		for _, in := range b.Instrs {
+			ci, ok := in.(ssa.CallInstruction)
+			if !ok {
+				continue
+			}
+			cc := ci.Common()
+			if cc.IsInvoke() {
+				if ifaceTypeName(cc.Value.Type())+"."+cc.Method.Name() == name {
+					return true
+				}
+				continue
+			}
+			if sc := cc.StaticCallee(); sc != nil {
+				k := u.eng.funcKey(sc)
+				if k == name || bareName(k) == name {
+					return true
+				}
+			}
+		}
+	}
+	return false
 }
